@@ -1,6 +1,6 @@
 (* Non-vacuity: concrete graphs meeting the hypotheses of the C02 theorems. *)
 From V Require Import Common.Base C02.Graph C02.Order C02.SpecESM C02.Wrap C02.Resolve C02.ResolveSpec
-  C02.DataUrl C02.SpecDataUrl C02.OrderProofs C02.OrderEsmProofs C02.ResolveProofs C02.WrapProofs C02.DataUrlProofs C02.Emit C02.EmitProofs C02.ResolveChainProofs C02.ResolveDen C02.SpecDenProofs.
+  C02.DataUrl C02.SpecDataUrl C02.OrderProofs C02.OrderEsmProofs C02.ResolveProofs C02.WrapProofs C02.DataUrlProofs C02.Emit C02.EmitProofs C02.ResolveChainProofs C02.ResolveDen C02.SpecDenProofs C02.StarHitsProofs C02.StarDenProofs.
 
 (* diamond with a back edge: 1 -> 2,3 ; 2 -> 4 ; 3 -> 4 ; 4 -> 1 (cycle); file 0 is the runtime *)
 Definition ex_graph : graph :=
@@ -133,3 +133,15 @@ Example ex_den_values :
   spec_resolve_export ex_den 1 2 = Some RAmbiguous /\
   classify_cands (den ex_den ex_den_rank 1 2) = RAmbiguous.
 Proof. vm_compute. repeat split. Qed.
+
+(* the hits of ex_den: file 1 and alias y (2): file 2 (indirect, ref 7) then file 3 (local, ref 0) *)
+Example ex_den_hits :
+  hits ex_den 6 2 1 [] = [(2%nat, 7%nat); (3%nat, 0%nat)] /\
+  option_map (fun e => (ed_src e, ed_ref e, ed_ambs e)) (ed_lookup 2 (resolved_of ex_den (fun _ => EESM) 1))
+    = Some (2%nat, 7%nat, [(3%nat, 0%nat)]) /\
+  (forall i, aliases_unique (getm ex_den i)).
+Proof.
+  split; [vm_compute; reflexivity|]. split; [vm_compute; reflexivity|].
+  intros i. do 5 (destruct i as [|i]; [unfold aliases_unique; cbn; repeat constructor; cbn; intuition lia|]).
+  unfold aliases_unique. destruct i; cbn; constructor.
+Qed.
